@@ -4,6 +4,7 @@
 #include "goldilocks_base_field.hpp"
 #include "ntt_goldilocks.hpp"
 #include "harness.hpp"
+#include <omp.h>
 #include "oracle.hpp"
 #include "gen.hpp"
 #include "arena.hpp"
@@ -560,6 +561,75 @@ static void run_cfgs(const vf::Args &args, Report &rep, Engine &eng, std::vector
     rep.cls(std::string("family:") + family, mineidx.size());
 }
 
+
+// callers that are members of an OpenMP team of their own: T threads of a `#pragma omp parallel` region, each with its own object,
+// own buffers and own configuration, call the library at the same time (the library's regions are then nested regions).
+// Only with the real runtime (the stand-in serves the library's regions, not the harness's).
+static void run_omp_callers(const vf::Args &args, Report &rep, Engine &eng, int kind)
+{
+    if (verif_omp_set_mode || !args.getu("ompcallers", 1)) return;
+    uint64_t rounds = args.getu("ompcaller_rounds", args.thorough() ? 400 : 40);
+    vf::ForkCfg fc;
+    fc.group = 8; fc.case_timeout = 60; fc.stop_on_hang = true; fc.nofork = args.nofork; fc.errdir = args.errdir; fc.family = "omp_team_callers";
+    std::vector<uint64_t> mine;
+    for (uint64_t r = 0; r < rounds; r++) if ((int)(r % args.nshards) == args.shard) mine.push_back(r);
+    const char *prop = kind == K_NTT ? "C03" : (kind == K_INTT ? "C04" : "C05");
+    vf::run_forked(rep, mine.size(), fc,
+        [&](uint64_t i) { return J().str("op", "callers inside an OpenMP team").str("kind", KN[kind]).u("round", mine[i]).done(); },
+        [&](uint64_t) { return std::string(prop) + ":" + KN[kind] + ":callers-inside-an-OpenMP-team"; },
+        [&](uint64_t i, Report &r) {
+            const int T = 2 + (int)(mine[i] % 3); // 2..4 callers
+            Rng q(vf::mix64(args.seed, 0x0CA11 + mine[i] * 131 + kind));
+            std::vector<Cfg> cf(T);
+            std::vector<std::shared_ptr<InOut>> io(T);
+            for (int t = 0; t < T; t++)
+            {
+                Cfg &c = cf[t];
+                c.kind = kind;
+                c.d = 1 + (int)q.below(8);
+                c.e = kind == K_EXT ? c.d + (int)q.below(3) : c.d;
+                c.S = (kind == K_EXT ? c.d : c.d) + (int)q.below(2);
+                static const uint64_t NC[] = {1, 3, 5, 6, 8};
+                c.ncols = NC[q.below(5)];
+                c.nphase = 1 + q.below(4);
+                c.nblock = 1 + q.below(3);
+                c.alias = (int)q.below(2);
+                c.threads = 1 + (unsigned)q.below(4);
+                c.input = (int)q.below(2);
+                io[t] = eng.get(kind, c.d, c.e, c.input, c.ncols);
+            }
+            g_record = false;
+            std::vector<int> bad(T, 0);
+            std::vector<uint64_t> badpos(T, 0), badgot(T, 0);
+#pragma omp parallel num_threads(T)
+            {
+                int me = omp_get_thread_num();
+                if (me < T)
+                {
+                    const Cfg &c = cf[me];
+                    uint64_t n = (uint64_t)1 << c.d, next = kind == K_EXT ? (uint64_t)1 << c.e : n;
+                    std::vector<uint64_t> src(next * c.ncols + 8, 0x0DDBA11ULL), dst(next * c.ncols + 8, 0x0DDBA11ULL);
+                    memcpy(src.data(), io[me]->in.data(), n * c.ncols * 8);
+                    NTT_Goldilocks ntt((uint64_t)1 << c.S, c.threads);
+                    El *d = c.alias == 0 ? (El *)src.data() : (El *)dst.data();
+                    if (kind == K_NTT) ntt.NTT(d, (El *)src.data(), n, c.ncols, NULL, c.nphase, c.nblock);
+                    else if (kind == K_INTT) ntt.INTT(d, (El *)src.data(), n, c.ncols, NULL, c.nphase, c.nblock);
+                    else ntt.extendPol(d, (El *)src.data(), next, n, c.ncols, NULL, c.nphase, c.nblock);
+                    const uint64_t *o = (const uint64_t *)d;
+                    for (uint64_t k = 0; k < next * c.ncols; k++)
+                        if (orc::canon(o[k]) != io[me]->out[k]) { bad[me] = 1; badpos[me] = k; badgot[me] = o[k]; break; }
+                }
+            }
+            for (int t = 0; t < T; t++)
+                if (bad[t])
+                    r.violation(std::string(prop) + ":" + KN[kind] + ":callers-inside-an-OpenMP-team:wrong-value",
+                                J().raw("cfg", cf[t].json()).i("team_of_callers", T).i("caller", t).u("first_bad_position", badpos[t]).h("got", badgot[t]).h("expected", io[t]->out[badpos[t]]).done());
+            r.evaluations += T;
+            r.cls("family:callers_inside_an_OpenMP_team", T);
+            r.nontrivial(vf::mix64(mine[i], 0xCA11));
+        });
+}
+
 // linearity / data-independence monitor: T(x) + T(y) == T(x+y) on the library itself
 static void run_linearity_body(const vf::Args &args, Report &rep, int kind, int dmax);
 // the parent process must never start an OpenMP team (a fork() after that would deadlock the children in libgomp)
@@ -838,6 +908,7 @@ int main(int argc, char **argv)
         if (th && args.getu("d22", 1)) for (int t = 0; t < 3; t++) { Cfg c; c.kind = kind; c.S = 22; c.d = 22; c.ncols = 1 + t; c.nphase = t == 0 ? 3 : (t == 1 ? 4 : 1); c.nblock = t; c.alias = t; c.threads = 16; cfgs.push_back(c); }
         run_cfgs(args, rep, eng, cfgs, kind == K_NTT ? "ntt_grid" : "intt_grid");
         run_linearity(args, rep, kind, th ? 10 : 8);
+        run_omp_callers(args, rep, eng, kind);
         if (kind == K_INTT && args.getu("roundtrips", 1)) run_roundtrips(args, rep);
     }
     else if (what == "C05")
@@ -853,6 +924,7 @@ int main(int argc, char **argv)
             }
         run_cfgs(args, rep, eng, cfgs, "extendpol_grid");
         run_linearity(args, rep, K_EXT, th ? 9 : 7);
+        run_omp_callers(args, rep, eng, K_EXT);
     }
     else if (what == "C19")
     {
